@@ -4992,7 +4992,16 @@ func (l *Lowerer) evalLiteralAsInt(lit *parser.Literal) (ir.ScalarKind, int64, e
 // evalConstantIdent resolves a named constant to its integer value.
 // Checks abstract constants, module-level constants, and local constants.
 func (l *Lowerer) evalConstantIdent(name string) (ir.ScalarKind, int64, error) {
-	// Check abstract constants first (not in module.Constants)
+	// Function-scope declarations shadow module-scope ones (same order as
+	// resolveIdentifier): deferred abstract local consts, then other locals.
+	if ast, ok := l.localAbstractASTs[name]; ok {
+		return l.evalConstantIntExpr(ast)
+	}
+	if exprHandle, ok := l.locals[name]; ok {
+		return l.evalExpressionAsConstantInt(exprHandle)
+	}
+
+	// Check abstract constants (not in module.Constants)
 	if info, ok := l.abstractConstants[name]; ok && info.scalarValue != nil {
 		sv := info.scalarValue
 		switch sv.Kind {
@@ -5000,8 +5009,6 @@ func (l *Lowerer) evalConstantIdent(name string) (ir.ScalarKind, int64, error) {
 			return ir.ScalarUint, int64(sv.Bits), nil
 		case ir.ScalarSint:
 			return ir.ScalarSint, int64(sv.Bits), nil
-		case ir.ScalarFloat:
-			return ir.ScalarFloat, int64(sv.Bits), nil
 		default:
 			return 0, 0, fmt.Errorf("'%s' must be an integer constant, got %v", name, sv.Kind)
 		}
@@ -5034,11 +5041,6 @@ func (l *Lowerer) evalConstantIdent(name string) (ir.ScalarKind, int64, error) {
 		default:
 			return 0, 0, fmt.Errorf("'%s' must be an integer constant, got %v", name, sv.Kind)
 		}
-	}
-
-	// Check local constants (const declarations inside functions)
-	if exprHandle, ok := l.locals[name]; ok {
-		return l.evalExpressionAsConstantInt(exprHandle)
 	}
 
 	return 0, 0, fmt.Errorf("'%s' is not a known constant", name)
